@@ -121,12 +121,24 @@ func (c *cancelCtx) cancelLocked(s *Sched, t *Thread, err error, first bool) {
 	k := c.done.k
 	k.closed = true
 	k.closeTok = t.curTok
+	if s.cfg.SeenState != nil {
+		if k.hist == 0 {
+			s.objs = append(s.objs, &k.hist)
+		}
+		k.hist = hmix(k.hist+1, t.hist, 0xc105e)
+		t.hist = hmix(t.hist, k.hist, 0xc105e)
+	}
 	for len(k.recvq) > 0 {
 		if raceOn {
 			k.recvq[0].t.acq = append(k.recvq[0].t.acq, t.curTok)
 		}
+		w := k.recvq[0].t
 		s.wakeWith(k.recvq[0], nil, false, "")
+		if s.cfg.SeenState != nil {
+			w.hist = hmix(w.hist, k.hist, 0x77)
+		}
 	}
+	s.woken = s.woken[:0]
 	kids := c.children
 	c.children = nil
 	if s.cfg.ReverseCancel {
